@@ -35,6 +35,7 @@ RULE = (
     "features (multi-valued, length tie, duplicate URI prefixes, mixed term shapes, empty key, source form) x outcome; "
     "non-trivial = the input has >= 2 URI prefixes for a prefix, a length tie, duplicate URI prefixes or mixed JSON-LD "
     "term shapes."
+    ' Every third file-vs-object comparison adds a fifth form: a str location of 300-1000 characters (deeply nested directories) (round 21).'
 )
 ASSUMPTIONS = ["JSON-LD @prefix dictionaries always carry a string @id (DESIGN 7.3)", "rdflib's own namespaces() is the meaning of a graph's prefix map"]
 
